@@ -70,6 +70,8 @@ FIXED = [
     ("C17", ["users_field_wrong:user:full_width_unterminated_field", "users_field_wrong:terminal:full_width_unterminated_field",
              "users_field_wrong:user+terminal:full_width_unterminated_field", "users_field_wrong:host:full_width_unterminated_field"],
      "fix: users() read past the end of full-width utmp fields", "ut_user/ut_line filled to 32 bytes"),
+    ("C17", ["cext_disk_partitions_unicode_error:non_utf8_type_or_options"], "fix: disk_partitions() failed on a mount entry with non-UTF-8 options",
+     "mount entry whose type/options hold bytes that are not UTF-8 -> UnicodeDecodeError for the whole table"),
     ("C17", ["ubsan:proc.c:left_shift"], "fix: undefined behaviour (signed shift) in proc_ioprio_set()", "ionice(2**18, 0) / negative class"),
     ("C17", ["ubsan:net.c:left_shift"], "fix: signed integer overflow when a NIC reports an unknown speed", "net_if_duplex_speed('eth0') on this sandbox"),
     ("C18", ["affinity_nonexistent_cpus_not_ValueError:OverflowError"], "fix: cpu_affinity() raised OverflowError", "cpu_affinity([2**70])"),
